@@ -133,6 +133,7 @@ class SimRandom:
         self.probe = None  # when set: callable(vector)->index, nothing is logged/drawn
         self.script = None  # when set: list of values served to rand/randint (probes; no tape)
         self.real_choice = None
+        self.int_script = None  # when set: Fisher-Yates indices served to shuffle/permutation (kernel extraction)
         self.on_choice = None  # optional callback(vector, index) after every non-probe categorical draw
         self.last_ints = []
         self.seeds = []
@@ -241,9 +242,10 @@ class SimRandom:
 
     def shuffle(self, x):
         n = len(x)
-        self.ctx.counters.inc("shuffle")
+        if self.int_script is None:
+            self.ctx.counters.inc("shuffle")
         for i in range(n - 1, 0, -1):
-            j = self.tape.int(0, i)
+            j = self.tape.int(0, i) if self.int_script is None else self.int_script.pop(0)
             if j != i:
                 if getattr(x, "ndim", 1) > 1:
                     x[[i, j]] = x[[j, i]]
